@@ -45,9 +45,14 @@ HARNESSES += [H(f"c09_query_iter_k{k:02d}", crate="ohkami", strength="bounded", 
                 functions=["request::query::QueryParams::iter", "request::query::QueryParams::new"],
                 clauses=["`k=v&k=v` read through the request's query iterator yields, in order, the RFC 3986 percent-decoding of the parts around each `=`; nothing after the last pair"],
                 bound=f"two pairs, 1-byte keys, values of {l} symbolic ASCII bytes (any except & and =)") for k, l in enumerate([(1, 1), (3, 0), (0, 3), (2, 2)])]
+QS = ["a=1&b=2", "q=what%3F&lang%2B=c%2B&n=1", "k=&x=%20y", "a=1&=v&b&c=3&", "a=%zz&b=100%25", "(empty)", "z=a%3Db%26c"]
+HARNESSES += [H(f"c09_query_iter_concrete_k{k:02d}", crate="ohkami", strength="bounded", tier="quick", timeout=600, expect_covers=False,
+                functions=["request::query::QueryParams::iter", "ohkami_lib::percent_encoding::percent_decode (real wrapper + crate)"],
+                clauses=["the query iterator yields, in order, the RFC 3986 percent-decoding of the parts around `=` of every well-formed `&`-separated part (malformed parts skipped); nothing after the last pair"],
+                bound=f"ONE concrete query string `{QS[k]}`") for k in range(7)]
 # written but NOT registered (measured: 8-32 GB or no answer in 15 min each; kept in harness/C09 for reference): the symbolic full-domain char, the derived unit enum (+Option),
 # symbolic strings of 1-2 bytes, symbolic string pairs, and the `k=v&k=v` text harnesses
-UNREGISTERED = ("c09_roundtrip_pair_bool", "c09_roundtrip_triple_bool", "c09_roundtrip_char", "c09_roundtrip_unit_enum", "c09_roundtrip_option_unit_enum", "c09_roundtrip_string_k01", "c09_roundtrip_string_k02")
+UNREGISTERED = ("c09_query_iter_k00", "c09_query_iter_k01", "c09_query_iter_k02", "c09_query_iter_k03", "c09_roundtrip_pair_bool", "c09_roundtrip_triple_bool", "c09_roundtrip_char", "c09_roundtrip_unit_enum", "c09_roundtrip_option_unit_enum", "c09_roundtrip_string_k01", "c09_roundtrip_string_k02")
 HARNESSES = [h for h in HARNESSES if h.name not in UNREGISTERED and not h.name.startswith(("c09_roundtrip_string_pair", "c09_decode_text"))]
 JOBS = 6
 TRUSTED = ["ASSUMED CONTRACTS: percent-encoding crate (spec/percent.rs decoder + reference NON_ALPHANUMERIC encoder in harness/C09), core::str::from_utf8 (spec/utf8.rs); alloc::fmt::format stubbed",
